@@ -62,7 +62,13 @@ type layout struct {
 	// field can have the same Go name as a field of the enclosing struct (legal Go; the outer one
 	// shadows the promoted one for selectors, which must not matter to a codec that walks the layout)
 	Shadow bool `json:"shadow,omitempty"`
+	// Spelling: how the tag text is written - 0 `offset:8, value:0x55` (as the shipped messages do),
+	// 1 one blank after each colon, 2 two blanks after each colon and before the second item, 3 a tab
+	// after each colon. The codec's tag grammar allows white space there (`offset:\s*N`, `value:\s*V`).
+	Spelling int `json:"tag_spelling,omitempty"`
 }
+
+var colonForms = []string{":", ": ", ":  ", ":\\t"}
 
 type options struct {
 	RejectAll bool `json:"reject_all,omitempty"` // try all 255 wrong bytes instead of two
@@ -112,11 +118,16 @@ type program struct {
 
 var typesBuilt atomic.Int64
 
-func fieldTag(f fieldSpec) reflect.StructTag {
-	if f.Kind == spec.KFixed {
-		return reflect.StructTag(fmt.Sprintf(`uhppote:"offset:%d, value:%s"`, f.Offset, f.Tag))
+func fieldTag(f fieldSpec, spelling int) reflect.StructTag {
+	c := colonForms[spelling]
+	sep := ", "
+	if spelling == 2 {
+		sep = ",  "
 	}
-	return reflect.StructTag(fmt.Sprintf(`uhppote:"offset:%d"`, f.Offset))
+	if f.Kind == spec.KFixed {
+		return reflect.StructTag(fmt.Sprintf(`uhppote:"offset%s%d%svalue%s%s"`, c, f.Offset, sep, c, f.Tag))
+	}
+	return reflect.StructTag(fmt.Sprintf(`uhppote:"offset%s%d"`, c, f.Offset))
 }
 
 // build turns a layout into a struct type: [SOM,] MsgType, then the fields in order; all fields
@@ -126,13 +137,13 @@ func build(l layout) program {
 	var inner []reflect.StructField
 	p := program{paths: make([][]int, len(l.Fields))}
 	if l.SOMTag != "" {
-		top = append(top, reflect.StructField{Name: "SOM", Type: tSOM, Tag: reflect.StructTag(`uhppote:"value:` + l.SOMTag + `"`)})
+		top = append(top, reflect.StructField{Name: "SOM", Type: tSOM, Tag: reflect.StructTag(`uhppote:"value` + colonForms[l.Spelling] + l.SOMTag + `"`)})
 	}
 	p.fn = []int{len(top)}
-	top = append(top, reflect.StructField{Name: "MsgType", Type: tMsgType, Tag: reflect.StructTag(`uhppote:"value:` + l.FnTag + `"`)})
+	top = append(top, reflect.StructField{Name: "MsgType", Type: tMsgType, Tag: reflect.StructTag(`uhppote:"value` + colonForms[l.Spelling] + l.FnTag + `"`)})
 	innerAt := -1
 	for i, f := range l.Fields {
-		sf := reflect.StructField{Name: fmt.Sprintf("F%d", i), Type: goTypes[f.Kind], Tag: fieldTag(f)}
+		sf := reflect.StructField{Name: fmt.Sprintf("F%d", i), Type: goTypes[f.Kind], Tag: fieldTag(f, l.Spelling)}
 		if l.Shadow {
 			if f.Embedded {
 				sf.Name = fmt.Sprintf("F%d", len(inner))
@@ -905,7 +916,7 @@ func main() {
 
 	var cases, distinct atomic.Int64
 	perFamily := map[string]*atomic.Int64{}
-	for _, f := range []string{"single-field", "two-field", "two-field-shadowed-name", "three-field", "function-code-tags", "fixed-value-tags", "som-tags"} {
+	for _, f := range []string{"single-field", "single-field-tag-spelling", "two-field", "two-field-shadowed-name", "three-field", "function-code-tags", "fixed-value-tags", "som-tags"} {
 		perFamily[f] = &atomic.Int64{}
 	}
 	var jobs []job
@@ -977,6 +988,13 @@ func main() {
 					tuples = append(tuples, []spec.KV{x})
 				}
 				add("single-field", l, tuples, options{Reject: true, AltDecode: true})
+				// the same layout with the tag text written with white space after the colons
+				if !embedded || off%8 == 2 {
+					for sp := 1; sp < len(colonForms); sp++ {
+						l.Spelling = sp
+						add("single-field-tag-spelling", l, tuples[:1], options{Reject: true})
+					}
+				}
 			}
 		}
 	}
@@ -1223,7 +1241,7 @@ func parent(r *vk.Run) {
 		r.Finish()
 	}
 	coll.flush(r)
-	for _, f := range []string{"single-field", "two-field", "two-field-shadowed-name", "three-field", "function-code-tags", "fixed-value-tags", "som-tags"} {
+	for _, f := range []string{"single-field", "single-field-tag-spelling", "two-field", "two-field-shadowed-name", "three-field", "function-code-tags", "fixed-value-tags", "som-tags"} {
 		r.Set("cases_"+f, perFamily[f])
 		if v, ok := samples[f]; ok {
 			r.Sample(v)
